@@ -109,14 +109,18 @@ Fixpoint skips (fuel : nat) (k : nat) (leadsep : bool) (r : str) : str :=
                         match r3 with
                         | c3 :: r4 =>
                             if c3 =? SL
-                            then skips f k leadsep (drop_comp k (skips f k false r4))   (* skip 'dir/../' *)
+                            then (if gt_root k r3
+                                  then skips f k leadsep (drop_comp k (skips f k false r4))   (* skip 'dir/../' *)
+                                  else skips f k leadsep r3)              (* directly under the root: only the '..' *)
                             else r
                         | [] => r
                         end
                       else if c2 =? SL then skips f k leadsep r2      (* skip '/./' *)
                       else r
                   end
-                else if c =? SL then skips f k false r2   (* "skip double separator" *)
+                else if c =? SL
+                     then (if leadsep then skips f k leadsep r1      (* second separator becomes the leading one *)
+                           else skips f k false r2)                  (* trailing separator *)
                 else r
             end
         end
